@@ -9,7 +9,7 @@ model in tables/contract.py."""
 from ..absval import Const, norm, const_of, as_bitv, Bytes, Seq, BitV, Lin, Sym, Unknown
 from ..interp import Ref, Raised
 from ..tables import regmap, contract
-from .radio import Radio, regname, bits8, term_eq, fmt_bits, regwrites, lift
+from .radio import Radio, regname, bits8, term_eq, fmt_bits, regwrites, lift, subst_bits
 from ..model import AnalysisError
 
 ONE_BYTE = [r for r in regmap.CONFIG_REGS if regmap.REGS[r][1] == 1]
@@ -52,6 +52,9 @@ def check_exit(radio, agg, func, label, out, st0_regs, expected_regs, owned_only
         fin = st.extra["regs"].get(r, radio.inv.extra["regs"][r])
         exp = expected_regs.get(r, radio.old(r)) if expected_regs is not None else None
         fb = bits8(fin)
+        facts = st.extra.get("bitfacts")
+        if facts and fb is not None and exp is not None:
+            fb, exp = subst_bits(fb, facts), subst_bits(exp, facts)
         if exp is not None:
             if fb is None:
                 # offset-coded register (address width): compare as constants
